@@ -1833,31 +1833,9 @@ check_image(Result& r, const VoxelsOnCartesianGrid<float>& im, const Input& in, 
   if (L >= 0 && bpp > 0)
     {
       r.count("data_length_checks");
-      // largest 'data offset in bytes[k]' of a data set that was read (only if every such line is well formed, 1 <= k <= frames, no k twice)
-      double max_off = 0;
-      {
-        bool ok = true;
-        std::set<long> seen;
-        for (auto& l : sc.lines)
-          {
-            if (!l.is_assignment || l.kw != "data offset in bytes")
-              continue;
-            char *e1 = nullptr, *e2 = nullptr;
-            const long k = std::strtol(l.index_raw.c_str(), &e1, 10);
-            const double off = std::strtod(l.value.c_str(), &e2);
-            if (!l.has_index || e1 == l.index_raw.c_str() || *e1 != '\0' || e2 == l.value.c_str() || *e2 != '\0' || k < 1 || k > frames_read || off < 0
-                || !seen.insert(k).second)
-              {
-                ok = false;
-                break;
-              }
-            max_off = std::max(max_off, off);
-          }
-        if (!ok || !sc.simple)
-          max_off = 0;
-        else if (max_off > 0)
-          r.count("data_length_checks_with_offset");
-      }
+      // (a 'data offset in bytes' key is only honoured after the 'type of data' line and if its value parses; the length
+      // check therefore uses the lower bound without offset)
+      const double max_off = 0;
       if (max_off + voxels * static_cast<double>(bpp) > static_cast<double>(L))
         {
           r.viol("short-data-file-accepted:" + entry,
